@@ -170,6 +170,10 @@ func (c *Cluster) handleProduce(creq *clientReq) (kmsg.Response, error) {
 				b.MaxTimestamp = now
 				logAppendTime = now
 			}
+			if b.NumRecords <= 0 {
+				donep(rt, rp, kerr.InvalidRecord.Code, "Invalid reported count for record batch.")
+				continue
+			}
 			if b.LastOffsetDelta != b.NumRecords-1 {
 				donep(rt, rp, kerr.CorruptMessage.Code, "Last offset delta mismatch.")
 				continue
